@@ -13,7 +13,13 @@ package main
 // MsgClawback by the current / a stale funder, and MsgConvertIntoVestingAccount{Stake}
 // (the auto-stake of the vested part of the grant: onto a new address, a plain account
 // with or without delegations, or merged into a clawback account that has spent,
-// delegated or unbonded what its earlier grants vested).  After every transaction: bank
+// delegated or unbonded what its earlier grants vested), and VALIDATOR CREATION: the self-bond of
+// MsgCreateValidator is a delegation of the account's coins, requested over the same three routes as an
+// ordinary delegation (the message through the router, the message inside authz MsgExec under a generic
+// grant, the staking precompile's createValidator in an Ethereum transaction signed by the account), at
+// delegatable-1 / delegatable / delegatable+1 / the whole balance, before / inside / after the schedules,
+// on accounts that delegated or spent part of what has vested; afterwards the self-bond is undelegated,
+// matures, is clawed back around.  After every transaction: bank
 // balance vs the locked amount computed here from the stored schedule by an
 // independent big.Int reference.  A successful MsgConvertVestingAccount must find
 // the schedule done (nothing locked up, nothing unvested, whatever is delegated);
@@ -30,6 +36,7 @@ import (
 	"time"
 
 	sdkmath "cosmossdk.io/math"
+	"github.com/cosmos/cosmos-sdk/crypto/keys/ed25519"
 	sdk "github.com/cosmos/cosmos-sdk/types"
 	sdkvesting "github.com/cosmos/cosmos-sdk/x/auth/vesting/types"
 	"github.com/cosmos/cosmos-sdk/x/authz"
@@ -42,6 +49,7 @@ import (
 
 	cosmosante "github.com/haqq-network/haqq/app/ante/cosmos"
 	evmante "github.com/haqq-network/haqq/app/ante/evm"
+	stakingprecompile "github.com/haqq-network/haqq/precompiles/staking"
 	"github.com/haqq-network/haqq/testutil"
 	erc20types "github.com/haqq-network/haqq/x/erc20/types"
 	"github.com/haqq-network/haqq/x/evm/statedb"
@@ -87,7 +95,7 @@ type lkSched struct {
 type lkOp struct {
 	Op    string   `json:"op"`
 	D     int      `json:"d,omitempty"`     // denomination of a single-coin spend
-	Mode  string   `json:"mode,omitempty"`  // sp-1 sp sp+1 half one abs | dg-1 dg dg+1 (delegations: relative to balance - unvested)
+	Mode  string   `json:"mode,omitempty"`  // sp-1 sp sp+1 half one abs | dg-1 dg dg+1 (delegations: relative to balance - unvested) | bal (delegations: the whole balance)
 	Amt   string   `json:"amt,omitempty"`   // absolute amount (mode abs), or second-denomination amount
 	DT    int      `json:"dt,omitempty"`    // seconds
 	Frac  string   `json:"frac,omitempty"`  // slash fraction, 1e-18 units
@@ -96,6 +104,7 @@ type lkOp struct {
 	To    string   `json:"to,omitempty"`    // updatefunder: the new funder
 	Merge bool     `json:"merge,omitempty"` // into: MsgConvertIntoVestingAccount{Merge}
 	Stake bool     `json:"stake,omitempty"` // into: MsgConvertIntoVestingAccount{Stake}: the vested part of the grant is staked at once
+	Own   bool     `json:"own,omitempty"`   // undelegate: from the account's own validator (the self-bond) instead of the genesis validator
 }
 
 type lkInput struct {
@@ -345,6 +354,9 @@ type lkSnap struct {
 	bal, locked [2]*big.Int
 	df, dv      *big.Int
 	deleg, unb  *big.Int
+	delegVal    *big.Int // of deleg: delegated to the genesis validator
+	delegOwn    *big.Int // of deleg: the self-bond on the account's own validator
+	isVal       bool     // a validator with the account as operator exists
 	va          *vestingtypes.ClawbackVestingAccount
 	ref         lkRefAcc
 	now         int64
@@ -376,8 +388,23 @@ func (e *lkEnv) snap() lkSnap {
 		s.dv = s.va.DelegatedVesting.AmountOf(lkDenoms[0]).BigInt()
 	}
 	s.deleg = e.App.StakingKeeper.GetDelegatorBonded(e.Ctx, lkAccV).BigInt()
+	s.delegVal, s.delegOwn = e.delegatedTo(e.valAddr), e.delegatedTo(sdk.ValAddress(lkAccV))
+	_, s.isVal = e.App.StakingKeeper.GetValidator(e.Ctx, sdk.ValAddress(lkAccV))
 	s.unb = e.App.StakingKeeper.GetDelegatorUnbonding(e.Ctx, lkAccV).BigInt()
 	return s
+}
+
+// what the account's delegation to one validator is worth (as GetDelegatorBonded counts it)
+func (e *lkEnv) delegatedTo(v sdk.ValAddress) *big.Int {
+	del, found := e.App.StakingKeeper.GetDelegation(e.Ctx, lkAccV, v)
+	if !found {
+		return big.NewInt(0)
+	}
+	val, found := e.App.StakingKeeper.GetValidator(e.Ctx, v)
+	if !found {
+		return big.NewInt(0)
+	}
+	return val.TokensFromSharesTruncated(del.Shares).RoundInt().BigInt()
 }
 
 func (s *lkSnap) spendable(d int) *big.Int {
@@ -512,7 +539,41 @@ var lkStrict = true // "balance >= locked" demanded after every successful trans
 
 var lkSpendOps = map[string]bool{"erc20send": true, "send": true, "multisend": true, "authzsend": true, "ethsend": true, "ethcontract": true, "daofund": true,
 	"govdeposit": true, "convertcoin": true, "fee": true, "ethfee": true}
-var lkDelegOps = map[string]bool{"delegate": true, "authzdelegate": true, "pdelegate": true}
+var lkDelegOps = map[string]bool{"delegate": true, "authzdelegate": true, "pdelegate": true, "createval": true, "authzcreateval": true, "pcreateval": true}
+
+// validator creation (the self-bond of MsgCreateValidator is a delegation) and its route in the Coq model
+var lkCreateValRoute = map[string]string{"createval": "LkRouteMsg", "authzcreateval": "LkRouteAuthz", "pcreateval": "LkRoutePrecompile"}
+
+// the consensus key of the account's validator
+var lkValPub = func() *ed25519.PubKey {
+	seed := make([]byte, 32)
+	seed[0], seed[1] = 0xC0, 0x08
+	return ed25519.GenPrivKeyFromSecret(seed).PubKey().(*ed25519.PubKey)
+}()
+
+// createValidator requests MsgCreateValidator{delegator = operator = the account, Value = x aISLM} over one of the
+// three routes; commission 10 % (the chain's minimum is 5 %), MinSelfDelegation 1.
+func (e *lkEnv) createValidator(route string, x *big.Int) error {
+	oper := sdk.ValAddress(lkAccV)
+	if route == "pcreateval" {
+		// the staking precompile, called directly by the account in an Ethereum transaction it signs (caller = signer)
+		desc := stakingprecompile.Description{Moniker: "lkv"}
+		comm := stakingprecompile.Commission{Rate: big.NewInt(100_000_000_000_000_000), MaxRate: big.NewInt(200_000_000_000_000_000), MaxChangeRate: big.NewInt(10_000_000_000_000_000)}
+		data, err := e.sABI.Pack("createValidator", desc, comm, big.NewInt(1), lkV, oper.String(), base64Std(lkValPub.Bytes()), x)
+		must(err)
+		return e.applyEth(e.signEth(evmAddr[aPS], big.NewInt(0), data))
+	}
+	msg, err := stakingtypes.NewMsgCreateValidator(oper, lkValPub, lkCoin(0, x), stakingtypes.NewDescription("lkv", "", "", "", ""),
+		stakingtypes.NewCommissionRates(sdk.NewDecWithPrec(10, 2), sdk.NewDecWithPrec(20, 2), sdk.NewDecWithPrec(1, 2)), sdk.OneInt())
+	must(err)
+	if route == "authzcreateval" {
+		m := authz.NewMsgExec(lkG, []sdk.Msg{msg})
+		_, err = e.runMsg(&m)
+		return err
+	}
+	_, err = e.runMsg(msg)
+	return err
+}
 
 type lkStep struct {
 	coq  []string // model steps (each paired with the observation after the op)
@@ -604,11 +665,23 @@ func (e *lkEnv) apply(op lkOp, pre *lkSnap) lkStep {
 		st.coq = append(st.coq, fmt.Sprintf("L2Send %s %s", z(st.amt[0]), z(st.amt[1])))
 	case lkDelegOps[op.Op]:
 		x := lkAmount(op, pre.delegatable())
+		if op.Mode == "bal" {
+			x = new(big.Int).Set(pre.bal[0])
+		}
 		if x.Sign() <= 0 {
 			st.skip = true
 			return st
 		}
 		st.amt[0] = x
+		if route, isCV := lkCreateValRoute[op.Op]; isCV {
+			st.err = e.createValidator(op.Op, x)
+			// the staking module refuses a second validator of the same operator whatever the amount (its own
+			// business, not modelled): the model sees the requests of an account that is not a validator yet
+			if !pre.isVal {
+				st.coq = append(st.coq, fmt.Sprintf("L2CreateValidator %s %s", route, z(x)))
+			}
+			return st
+		}
 		msg := stakingtypes.NewMsgDelegate(lkAccV, val, lkCoin(0, x))
 		switch op.Op {
 		case "delegate":
@@ -635,12 +708,18 @@ func (e *lkEnv) apply(op lkOp, pre *lkSnap) lkStep {
 			st.err = e.atomic(func(ctx sdk.Context) error { return e.App.BankKeeper.SendCoins(ctx, lkF, lkAccV, lkCoins2(x)) })
 			st.coq = append(st.coq, fmt.Sprintf("L2Receive %s %s", z(x[0]), z(x[1])))
 		case "undelegate":
-			x := lkAmount(op, pre.deleg)
+			// relative to what is delegated to the validator addressed: the genesis validator, or (own) the account's own
+			base, from := pre.delegVal, val
+			if op.Own {
+				base, from = pre.delegOwn, sdk.ValAddress(lkAccV)
+			}
+			x := lkAmount(op, base)
 			if x.Sign() <= 0 {
 				st.skip = true
 				return st
 			}
-			_, st.err = e.runMsg(stakingtypes.NewMsgUndelegate(lkAccV, val, lkCoin(0, x)))
+			st.amt[0] = x
+			_, st.err = e.runMsg(stakingtypes.NewMsgUndelegate(lkAccV, from, lkCoin(0, x)))
 			// whether the staking module accepts the amount is its own business (shares/tokens rounding): the model
 			// sees accepted undelegations only; the unbonding entry holds what the shares were worth: see the resync step
 			if st.err == nil {
@@ -810,13 +889,14 @@ func (e *lkEnv) setupAccount(in lkInput) error {
 			}
 		}
 	}
-	// grants of the vesting account to G: delegate (staking authorization) and bank send (generic)
+	// grants of the vesting account to G: delegate (staking authorization), bank send and validator creation (generic)
 	exp := e.Ctx.BlockTime().Add(10 * 365 * 24 * time.Hour)
 	sa, err := stakingtypes.NewStakeAuthorization([]sdk.ValAddress{e.valAddr}, nil, stakingtypes.AuthorizationType_AUTHORIZATION_TYPE_DELEGATE, nil)
 	if err != nil {
 		return err
 	}
-	for _, a := range []authz.Authorization{sa, authz.NewGenericAuthorization(sdk.MsgTypeURL(&banktypes.MsgSend{}))} {
+	for _, a := range []authz.Authorization{sa, authz.NewGenericAuthorization(sdk.MsgTypeURL(&banktypes.MsgSend{})),
+		authz.NewGenericAuthorization(sdk.MsgTypeURL(&stakingtypes.MsgCreateValidator{}))} {
 		m, err := authz.NewMsgGrant(lkAccV, lkG, a, &exp)
 		if err != nil {
 			return err
@@ -923,8 +1003,50 @@ func lockedRunCase(id string, in lkInput) Case {
 		if op.Op == "into" {
 			mode = map[bool]string{false: "", true: "merge"}[op.Merge] + map[bool]string{false: "", true: "+stake"}[op.Stake]
 		}
+		if op.Op == "undelegate" && op.Own {
+			mode += " own"
+		}
 		tags[fmt.Sprintf("%s %s%s:%s", op.Op, mode, kind, res)] = true
 		now := post.now
+		if _, isCV := lkCreateValRoute[op.Op]; isCV {
+			// shape of the state the validator creation was requested in (from the reference, not from the code)
+			sched := "plain account"
+			if pre.va != nil {
+				v := lkRefEv(pre.ref.Start, pre.ref.Vesting, now, 0)
+				switch {
+				case now <= pre.ref.Start:
+					sched = "before the schedule"
+				case v.Sign() == 0:
+					sched = "nothing vested"
+				case v.Cmp(pre.ref.Orig[0]) < 0:
+					sched = "part vested"
+				case pre.ref.lockedUp(now, 0).Sign() > 0:
+					sched = "all vested, locked up"
+				default:
+					sched = "schedule done"
+				}
+			}
+			rel := "below the delegatable amount"
+			if c := st.amt[0].Cmp(pre.delegatable()); c == 0 {
+				rel = "equal to the delegatable amount"
+			} else if c > 0 {
+				rel = "above the delegatable amount"
+			}
+			if st.amt[0].Cmp(pre.bal[0]) > 0 {
+				rel = "above the balance"
+			}
+			who := ""
+			if pre.isVal {
+				who = ", already a validator"
+			}
+			tags[fmt.Sprintf("%s: %s, self-bond %s, bonded-before=%v%s -> %s", op.Op, sched, rel, pre.deleg.Sign() > 0, who, res)] = true
+			if ok {
+				tags["validator-created"] = true
+				if !post.isVal || sub(post.delegOwn, pre.delegOwn).Cmp(st.amt[0]) != 0 {
+					fail(i, op, fmt.Sprintf("validator creation succeeded but the account's validator (exists=%v) holds a self-bond of %s, requested %s", post.isVal, post.delegOwn, st.amt[0]))
+				}
+			}
+		}
 		var stakeRef *big.Int // into{Stake}: the vested part of THIS grant at the block time, by the reference
 		// ---- the account-type operations
 		switch op.Op {
@@ -1073,7 +1195,13 @@ func lockedRunCase(id string, in lkInput) Case {
 		case lkDelegOps[op.Op] && ok:
 			nOKDeleg++
 			if u := new(big.Int).Add(post.ref.unvested(now, 0), post.oblUnvested); post.bal[0].Cmp(u) < 0 {
-				fail(i, op, fmt.Sprintf("delegation of %s accepted: balance %s is now below the unvested amount %s — unvested coins were delegated", st.amt[0], post.bal[0], u))
+				if _, isCV := lkCreateValRoute[op.Op]; isCV {
+					fail(i, op, fmt.Sprintf("validator created (%s) with a self-bond of %s although the account could delegate at most %s (balance %s, unvested %s): the balance %s is now below the unvested amount %s — unvested coins were delegated (DelegatedFree %s, DelegatedVesting %s)",
+						map[string]string{"createval": "MsgCreateValidator", "authzcreateval": "MsgCreateValidator inside authz MsgExec", "pcreateval": "staking precompile createValidator, Ethereum transaction signed by the account"}[op.Op],
+						st.amt[0], pre.delegatable(), pre.bal[0], pre.ref.unvested(now, 0), post.bal[0], u, post.df, post.dv))
+				} else {
+					fail(i, op, fmt.Sprintf("delegation of %s accepted: balance %s is now below the unvested amount %s — unvested coins were delegated", st.amt[0], post.bal[0], u))
+				}
 			}
 		}
 		if st.pre != nil && *st.pre && ok {
@@ -1122,7 +1250,7 @@ func lockedRunCase(id string, in lkInput) Case {
 			slashed = true
 		}
 		switch op.Op {
-		case "delegate", "authzdelegate", "pdelegate":
+		case "delegate", "authzdelegate", "pdelegate", "createval", "authzcreateval", "pcreateval":
 			if ok {
 				expDeleg.Add(expDeleg, st.amt[0])
 			}
@@ -1132,7 +1260,7 @@ func lockedRunCase(id string, in lkInput) Case {
 			}
 		case "undelegate":
 			if ok {
-				x := lkAmount(op, pre.deleg)
+				x := st.amt[0]
 				expDeleg.Sub(expDeleg, x)
 				if expDeleg.Sign() < 0 { // share rounding: the staking module accepted more than it reports as bonded
 					expDeleg.SetInt64(0)
@@ -1275,6 +1403,7 @@ func lkEnds(s lkSched) (vestEnd, lockEnd int64) {
 
 var lkSpendNames = []string{"send", "send", "multisend", "authzsend", "ethsend", "ethsend", "ethcontract", "daofund", "govdeposit", "fee", "ethfee"}
 var lkDelegNames = []string{"delegate", "authzdelegate", "pdelegate"}
+var lkCreateValNames = []string{"createval", "authzcreateval", "pcreateval"}
 
 func lkWho(r *Rng, pF2 int) string {
 	if r.Chance(pF2) {
@@ -1303,9 +1432,13 @@ func lkGenOp(r *Rng, in *lkInput, scale int) lkOp {
 		}
 		return op
 	case x < 50:
-		return lkOp{Op: lkDelegNames[r.Intn(3)], Mode: []string{"dg-1", "dg", "dg+1", "dg+1", "half", "one"}[r.Intn(6)]}
+		names := lkDelegNames
+		if x >= 48 { // validator creation: the self-bond over the same three routes
+			names = lkCreateValNames
+		}
+		return lkOp{Op: names[r.Intn(3)], Mode: []string{"dg-1", "dg", "dg+1", "dg+1", "half", "one"}[r.Intn(6)]}
 	case x < 58:
-		return lkOp{Op: "undelegate", Mode: []string{"sp", "half", "one", "sp-1"}[r.Intn(4)]}
+		return lkOp{Op: "undelegate", Mode: []string{"sp", "half", "one", "sp-1"}[r.Intn(4)], Own: x == 57}
 	case x < 66:
 		return lkOp{Op: "endblock", DT: []int{1, 100, 350, 900}[r.Intn(4)]}
 	case x < 77:
@@ -1339,6 +1472,8 @@ func lkGen(r *Rng) lkInput {
 		return lkGenAccountType(r)
 	case x < 55:
 		return lkGenStake(r)
+	case x >= 85:
+		return lkGenValidator(r)
 	}
 	scale := []int{12, 64, 90}[r.Intn(3)]
 	in := lkInput{Create: "create", Sched: lkGenSched(r, -1500, 400, scale), Extra: [2]string{"0", "0"}}
@@ -1640,6 +1775,151 @@ func lkGenStake(r *Rng) lkInput {
 			vestEnd, lockEnd = lkEnds(s2)
 			add(spendOp("sp+1"))
 			add(delegOp("dg+1"))
+		}
+		for k := r.Intn(3); k > 0; k-- {
+			add(lkGenOp(r, &in, scale))
+		}
+	}
+	return in
+}
+
+// Histories around validator creation: MsgCreateValidator bonds Value coins of the operator's account, a delegation
+// like any other, reachable over the same three routes.  The block time is steered before the start of the
+// schedule / inside it / to its vesting end / behind both ends; the account has left its vested coins alone,
+// delegated half or all of what it may delegate, spent half or all of what it may spend, has an undelegation in
+// flight, or got free coins on top; then the self-bond is requested over one route at delegatable+1 / the whole
+// balance (must be refused while anything is unvested) or at delegatable / delegatable-1 / half / one, after a refusal
+// again over the other routes; afterwards ordinary delegations at delegatable+1, spends at spendable / spendable+1,
+// undelegation of the self-bond, unbonding maturity, the funder's clawback, a later point of the schedule with a new
+// attempt, conversion to a plain account and validator creation by the plain account.
+func lkGenValidator(r *Rng) lkInput {
+	scale := []int{12, 64, 64, 90}[r.Intn(4)]
+	in := lkInput{Create: []string{"create", "create", "create", "convert", "new"}[r.Intn(5)], Sched: lkGenSched(r, -1000, 600, scale), Extra: [2]string{"0", "0"}}
+	if in.Create == "convert" && r.Chance(40) {
+		x := r.Big(scale)
+		in.PreDeleg = x.Add(x, big.NewInt(1)).String()
+	}
+	if r.Chance(35) {
+		in.Extra[0] = r.Big(scale).String()
+	}
+	if r.Chance(15) {
+		in.Extra[1] = r.Big(40).String()
+	}
+	vestEnd, lockEnd := lkEnds(in.Sched)
+	cur := int64(0)
+	add := func(op lkOp) {
+		if op.Op == "adv" || op.Op == "endblock" {
+			cur += int64(op.DT)
+		}
+		in.Ops = append(in.Ops, op)
+	}
+	advTo := func(t int64) {
+		if t > cur {
+			add(lkOp{Op: "adv", DT: int(t - cur)})
+		}
+	}
+	spendOp := func(mode string) lkOp { return lkOp{Op: lkSpendNames[r.Intn(len(lkSpendNames))], Mode: mode} }
+	delegOp := func(mode string) lkOp { return lkOp{Op: lkDelegNames[r.Intn(3)], Mode: mode} }
+	rounds := 1 + r.Intn(2)
+	for round := 0; round < rounds; round++ {
+		// where in the schedule the validator is created
+		lo, hi := vestEnd, lockEnd
+		if lo > hi {
+			lo, hi = hi, lo
+		}
+		switch r.Intn(8) {
+		case 0: // at once (before the start of the schedule when it starts in the future)
+		case 1:
+			advTo(in.Sched.Start) // exactly at the start: nothing vested
+		case 2, 3, 4:
+			if d := vestEnd - in.Sched.Start; d > 0 {
+				advTo(in.Sched.Start + 1 + int64(r.Intn(int(d)))) // inside the vesting schedule
+			}
+		case 5:
+			advTo(vestEnd - 1 + int64(r.Intn(2))) // just before / at the vesting end
+		case 6:
+			advTo(lo + 1 + int64(r.Intn(int(hi-lo)+1))/2) // between the two ends
+		default:
+			advTo(hi + 1 + int64(r.Intn(300))) // everything vested and unlocked
+		}
+		// what became of the coins that have vested
+		switch r.Intn(8) {
+		case 0, 1:
+		case 2:
+			add(delegOp("half"))
+		case 3:
+			add(delegOp([]string{"dg", "dg-1"}[r.Intn(2)]))
+			if r.Chance(50) {
+				add(lkOp{Op: "undelegate", Mode: []string{"half", "sp"}[r.Intn(2)]})
+			}
+		case 4:
+			add(spendOp("half"))
+		case 5:
+			add(spendOp("sp"))
+		case 6:
+			add(delegOp("half"))
+			add(lkOp{Op: "undelegate", Mode: []string{"half", "sp", "one"}[r.Intn(3)]}) // unbonding in flight
+			if r.Chance(40) {
+				add(spendOp("half"))
+			}
+		default:
+			a := r.Big(scale)
+			add(lkOp{Op: "receive", D: 0, Mode: "abs", Amt: a.Add(a, big.NewInt(1)).String()})
+		}
+		// the self-bond over the three routes
+		routes := []int{0, 1, 2}
+		for k := 2; k > 0; k-- {
+			j := r.Intn(k + 1)
+			routes[k], routes[j] = routes[j], routes[k]
+		}
+		first := []string{"dg+1", "dg+1", "dg+1", "bal", "dg", "dg", "dg-1", "half", "one"}[r.Intn(9)]
+		add(lkOp{Op: lkCreateValNames[routes[0]], Mode: first})
+		if first == "dg+1" || first == "bal" {
+			add(lkOp{Op: lkCreateValNames[routes[1]], Mode: []string{"dg+1", "bal", "dg", "half"}[r.Intn(4)]})
+			add(lkOp{Op: lkCreateValNames[routes[2]], Mode: []string{"dg+1", "dg", "dg", "dg-1"}[r.Intn(4)]})
+		} else if r.Chance(30) {
+			add(lkOp{Op: lkCreateValNames[routes[1]], Mode: "dg"}) // a second validator of the same operator
+		}
+		// afterwards
+		add(delegOp("dg+1"))
+		add(spendOp("sp+1"))
+		if r.Chance(40) {
+			add(lkOp{Op: "clawback", Who: lkWho(r, 10)})
+		}
+		if r.Chance(50) {
+			add(lkOp{Op: "undelegate", Mode: []string{"sp", "half", "one", "sp-1"}[r.Intn(4)], Own: true})
+			add(lkOp{Op: "endblock", DT: []int{350, 350, 100}[r.Intn(3)]})
+			add(spendOp([]string{"sp", "sp+1"}[r.Intn(2)]))
+		} else if r.Chance(40) {
+			add(lkOp{Op: "endblock", DT: []int{1, 100}[r.Intn(2)]}) // the new validator enters the set when its power allows
+		}
+		if r.Chance(35) {
+			add(lkOp{Op: "adv", DT: []int{10, 400, 2500}[r.Intn(3)]})
+			add(lkOp{Op: lkCreateValNames[r.Intn(3)], Mode: []string{"dg+1", "dg", "bal"}[r.Intn(3)]})
+		}
+		if r.Chance(20) {
+			s := lkGenSched(r, int(cur)-1500, int(cur)+300, scale)
+			add(lkOp{Op: "grant", Sched: &s, Who: lkWho(r, 10)})
+			add(lkOp{Op: lkCreateValNames[r.Intn(3)], Mode: "dg+1"})
+			ve, le := lkEnds(s)
+			if ve > vestEnd {
+				vestEnd = ve
+			}
+			if le > lockEnd {
+				lockEnd = le
+			}
+		}
+		add(spendOp([]string{"sp", "sp+1"}[r.Intn(2)]))
+		if r.Chance(20) {
+			// a plain account (when the schedule is done) creating / topping up its validator
+			end := vestEnd
+			if lockEnd > end {
+				end = lockEnd
+			}
+			advTo(end - 1 + int64(r.Intn(3)))
+			add(lkOp{Op: "convert"})
+			add(lkOp{Op: lkCreateValNames[r.Intn(3)], Mode: []string{"dg", "half", "dg+1"}[r.Intn(3)]})
+			add(spendOp("sp+1"))
 		}
 		for k := r.Intn(3); k > 0; k-- {
 			add(lkGenOp(r, &in, scale))
